@@ -227,7 +227,9 @@ def run(ctx, cfg):
     f = st.filt[-1]['out']
     strict = strict_pre(ctx, f, p, n, boundary)
     if raised is not None:
-        if strict:
+        # too few oscillations may end in the library's IndexError / ValueError; any other exception type
+        # (TypeError, KeyError, AttributeError ...) is a defect whatever the signal
+        if strict or not isinstance(raised, (IndexError, ValueError)):
             ctx.fail(exc_label(raised))
         return
     if df is None or not hasattr(df, 'columns'):
